@@ -16,7 +16,8 @@ import (
 type lenCase struct {
 	M        wm.Msg
 	Compress bool
-	Plain    bool // the message belongs to the exactness sub-domain
+	Plain    bool   // the message belongs to the exactness sub-domain
+	Spell    uint64 `json:",omitempty"` // representation choices for the library value (0: canonical); never with Plain
 }
 
 var handWritten = map[uint16]bool{wm.TNSEC: true, wm.TNSEC3: true, wm.TCSYNC: true, wm.TOPT: true, wm.TSVCB: true, wm.THTTPS: true,
@@ -35,9 +36,14 @@ func checkLen(c lenCase) error {
 	if err != nil || (len(w) > 65535 && !c.Compress) {
 		return nil // not packable: outside the domain
 	}
+	restore := wm.Spelling(c.Spell)
 	lib, err := wm.MsgToLib(m, c.Compress)
+	restore()
 	if err != nil {
 		return nil
+	}
+	if c.Spell != 0 {
+		pbt.Class("alternative-representation")
 	}
 	predicted := lib.Len()
 	p, err := lib.Pack()
@@ -166,7 +172,11 @@ func genAny(t *rapid.T) lenCase {
 	if rapid.IntRange(0, 15).Draw(t, "filler") == 0 {
 		m.An = append([]wm.Rec{gen.PlainFiller(16384 - 12 - 20 - rapid.IntRange(0, 120).Draw(t, "d"))}, m.An...)
 	}
-	return lenCase{M: m, Compress: rapid.Bool().Draw(t, "compress")}
+	c := lenCase{M: m, Compress: rapid.Bool().Draw(t, "compress")}
+	if rapid.IntRange(0, 3).Draw(t, "respell") == 0 {
+		c.Spell = rapid.Uint64().Draw(t, "spell")
+	}
+	return c
 }
 
 func genPlain(t *rapid.T) lenCase {
